@@ -196,6 +196,9 @@ def ngram_scenarios(strings, queries, rnd, tier):
                                                         {"op": "optimize"}, q("optimize", few)]},
         {"kind": "text", "hist": "delete-compact", "steps": [{"op": "write", "rows": rows[:half]}, {"op": "write", "mode": "append", "rows": rows[half:]}, ix,
                                                               {"op": "delete", "ids": [2, 3, half + 1]}, {"op": "compact"}, q("delete-compact", few)]},
+        # legacy-format table: the index answer goes through MaterializeIndexExec
+        {"kind": "text", "storage": "legacy", "hist": "legacy-storage", "steps": [{"op": "write", "rows": [r for r in rows if r[1] != []][:40]}, ix,
+                                                                                   q("legacy-storage", few[:16])]},
     ]
 
 
